@@ -113,18 +113,20 @@ channel.send('sub-done')
 """
 W_CALLBACK = """
 got = []
-import threading
-done = threading.Event()
+done = []
 END = 999999
 def cb(x):
     if x == END:
-        done.set()
+        done.append(1)
     else:
         got.append(x)
 sub = channel.gateway.newchannel()
 sub.setcallback(cb, endmarker=END)
 channel.send(sub)
-done.wait(30)
+for _ in range(3000):
+    if done:
+        break
+    channel.gateway.execmodel.sleep(0.01)
 channel.send(got)
 """
 W_PRINT = """
@@ -289,8 +291,13 @@ def run_programs(gw, rng, big=70000, light=False):
             return "TypeError"
 
     def status():
-        st = gw.remote_status()
-        return [st.numchannels, st.numexecuting]
+        # the count of a task that has just finished may lag behind its channel's close: wait until it settles
+        deadline = time.time() + 5
+        while 1:
+            st = gw.remote_status()
+            if (st.numexecuting == 0 and st.numchannels == 0) or time.time() > deadline:
+                return [st.numchannels, st.numexecuting]
+            time.sleep(0.02)
 
     def module():
         import props.xport_remote_module as m
